@@ -798,6 +798,24 @@ impl World {
             Src::Garbage { len, seed } => {
                 Some((seeded_bytes(seed as u64, (len as usize).min(70_000)), None, "garbage"))
             },
+            Src::Forged { plen, pseed } => {
+                let n = self.nodes.get(node)?;
+                let trm = n.trm.as_ref()?;
+                let stateless = matches!(n.st, St::Sl(_));
+                let dir = trm.recv_dir();
+                let nonce = if stateless { 0 } else { trm.nonces[dir] };
+                if nonce == u64::MAX {
+                    return None;
+                }
+                let payload = seeded_bytes(mix(pseed as u64, 0xF04E), (plen as usize).min(70_000));
+                let bytes = trm.encrypt_at(dir, nonce, &payload);
+                let fields = vec![
+                    Field { kind: FieldKind::Payload, off: 0, len: payload.len(), encrypted: true },
+                    Field { kind: FieldKind::PayloadTag, off: payload.len(), len: TAGLEN, encrypted: true },
+                ];
+                let m = Msg { from: Self::peer(node) as u8, phase: Phase::Tr { nonce }, bytes: bytes.clone(), payload, fields, s_plain: None };
+                Some((bytes, Some(m), "forged-by-keyholder"))
+            },
         }
     }
 
@@ -1483,6 +1501,7 @@ impl World {
             "replay" => self.stats.fault("replay-or-substitution-same-session"),
             "cross-session" => self.stats.fault("substitution-cross-session"),
             "garbage" => self.stats.fault("garbage-injection"),
+            "forged-by-keyholder" => self.stats.fault("authentic-message-from-nonconforming-peer"),
             _ => {},
         }
         if !matches!(srckind, "inorder" | "peek") {
